@@ -57,6 +57,7 @@ fn main() {
   let body = match body { Some((_, b)) => b, None => { eprintln!("unknown body {}", a[1]); std::process::exit(2); } };
   let params: Vec<i64> = parse_list(&a[2]);
   let vals: Vec<u64> = parse_list(&a[3]);
+  panic::set_hook(Box::new(|_| {}));
   let r = panic::catch_unwind(move || {
     let mut i = In::from_vals(vals);
     body(&mut i, &params);
